@@ -83,3 +83,29 @@ Proof.
       injection Hi as <-; injection Hj as <-; cbn [ltop lbottom]; unfold Qle; cbn; lia.
   - intros l [<-|[<-|[<-|[]]]]; cbn; split; intro H; vm_compute in H; discriminate.
 Qed.
+
+(** a reported block on the M-grid with three layers: the hypotheses of the block theorems hold together *)
+Definition ex_surface (c : positive) : Q := 0.
+Lemma ex_block :
+  block_containing_point m_polygon m_centre m_nbrs m_bbox ex_surface m_columns ex_layers (60, 140) (-15) None
+    = Some (2%nat, 4%positive) /\
+  surface_case ex_surface ex_layers (-15) 4%positive = false /\ In 4%positive m_columns /\
+  tiling m_polygon (60, 140) /\ stacked ex_layers /\ off_boundaries ex_layers (-15).
+Proof.
+  split; [vm_compute; reflexivity|]. split; [vm_compute; reflexivity|]. split; [vm_compute; tauto|].
+  split; [exact (proj1 m_example_hyps)|exact ex_layers_ok].
+Qed.
+
+(** a small track: a line along y = 50 through columns 1 and 2 of a row, columns given out of order *)
+Definition ex_inters (c : positive) : list pt :=
+  match c with
+  | 1%positive => [(0, 50); (100, 50)]
+  | 2%positive => [(200, 50); (300, 50)]
+  | _ => []
+  end.
+Definition ex_tdist (p : pt) : Q := px p + 10.
+Lemma ex_track :
+  column_track m_polygon (fun _ => true) ex_inters ex_tdist (fun _ => 100) track_tol (-10, 50) (600, 50)
+               [2; 3; 1]%positive
+  = [(1%positive, (0, 50), (100, 50)); (2%positive, (200, 50), (300, 50))].
+Proof. vm_compute. reflexivity. Qed.
